@@ -2,6 +2,17 @@
 # Build the whole Coq development (full .vo build, no -vos) offline.
 set -e
 mkdir -p "$(dirname "$0")/build"
+# the generated Coq files (py2coq translations, site lists) are rewritten from the current source tree first, so
+# that what gets built never depends on which tree the committed copies were generated from
+( cd "$(dirname "$0")" && HS_REPO="${HS_REPO:-/repo}" PYTHONPATH="${HS_REPO:-/repo}:$(pwd)/harness" /venv/bin/python - <<'PY' || echo "WARNING: regeneration of coq/Gen failed (the checks regenerate on every run)"
+import sys
+sys.path.insert(0, "harness")
+from props import pygen, sitegen
+for n in pygen.TARGETS:
+    pygen.regenerate(n)
+sitegen.regenerate()
+PY
+)
 cd "$(dirname "$0")/coq"
 (
   flock 9
